@@ -5,7 +5,7 @@ every tag with store_line_numbers=False."""
 import json
 
 from .common import Ctx, Driver, cps
-from . import c04
+from . import c04, tk
 
 MANIFEST = dict(
     text=("Lean: (1) the adapter passes the tokenizer's getpos() through unchanged for every start-tag callback (<x> and <x/>) and stores "
@@ -15,7 +15,9 @@ MANIFEST = dict(
           "placement (text, attribute values, in-tag whitespace, comments, CDATA) every real tag's position is compared with the writer's "
           "recorded offset, in both settings of store_line_numbers, and chunked replays of updatepos are compared with CPython's."),
     design="7/C18",
-    note="PARTIAL: that CPython's tokenizer calls updatepos with exactly the text it has consumed before reporting a tag is recorded (every case), not proved.",
+    note=("The tokenizer's bookkeeping is no longer only recorded: start_tag_positions_are_offsets_tokenized composes the tokenizer model's position "
+          "invariant (Props/TK.lean) with pos_pass_through; what remains a tie by correspondence is that the Lean tokenizer model is html.parser "
+          "(stream tokenizer-model on every generated document, plus ./check TK)."),
     technique="Lean 4 proof (pass-through over all callback streams; updatepos = line/column for any chunking) + writer-offset differential check",
 )
 
@@ -40,10 +42,14 @@ def run(ctx: Ctx):
                 "comments, CDATA, after \\r); every tag's (sourceline, sourcepos) vs the writer's recorded '<' offset; both settings of "
                 "store_line_numbers; plus random chunkings of random texts through CPython's ParserBase.updatepos vs the Lean model. "
                 "non-trivial = a document with at least one newline before some tag and at least 3 tags")
-    ctx.assumptions = ["the tokenizer's own bookkeeping (when updatepos is called) is CPython's, recorded not verified"]
+    ctx.assumptions = ["the tokenizer's bookkeeping (when updatepos is called, with which chunk) is modelled (Model/Tokenizer.lean) and proved to yield "
+                       "the line/column of each start tag's '<' (Props/TK.lean); the model is tied to CPython's html.parser by the tokenizer-model "
+                       "stream (identical callback streams incl. positions on every generated document) and harness/tk.py's corpus",
+                       "html.unescape and str.lower are parameters of the tokenizer model"]
     drv = Driver()
     lines, wants, cases = [], [], []
     shared = {}
+    tk_docs = []           # (text, writer's offsets) of every generated document, for the tokenizer-model stream
     for i in range(ctx.n(4000, 80000)):
         r = ctx.rng("doc", i)
         nodes = c04.gen_tree(r)
@@ -75,6 +81,7 @@ def run(ctx: Ctx):
             text = "".join(fit(ch) for ch in text)
             if text[:1] == "\ufeff":
                 text = "x" + text[1:]          # a byte order mark is detection's business (C07), not a character of the parsed text
+        tk_docs.append((text, list(offsets)))
         try:
             if enc is not None:
                 from bs4 import BeautifulSoup
@@ -135,6 +142,16 @@ def run(ctx: Ctx):
         if a != b:
             ctx.corr_disagreements += 1
             ctx.violation("Lean lineCol and the implementation's positions disagree", case=c, observed=a, model=b, stream="linecol",
+                          no_failing_input=True)
+    # tokenizer-model: on every generated document the Lean tokenizer (Model/Tokenizer.lean, the subject of
+    # start_tag_positions_are_offsets_tokenized) must produce html.parser's callback stream, positions included, and the offsets
+    # the theorem speaks of (startOffsets = starts of the model's ST/SE spans) must be the offsets the writer put the tags at
+    got = []
+    tk.stream(ctx, [t for t, _ in tk_docs], name="tokenizer-model", drv=drv, collect=got)
+    for (text, offs), (_, real, mt, ms) in zip(tk_docs, got):
+        if real == mt and tk.start_offsets(ms) != offs:
+            ctx.violation("the tokenizer model's start-tag offsets are not the offsets the writer put the start tags at",
+                          case={"text": text}, expected=offs, observed=tk.start_offsets(ms), stream="tokenizer-model",
                           no_failing_input=True)
     # updatepos under random chunkings vs CPython's ParserBase
     import _markupbase
